@@ -110,6 +110,19 @@ def check(ck):
     flag = [g.nodes[i] for i in d[sn.id] if g.nodes[i].kind == "branch" and dump(g.nodes[i].test) == "self._done_event.is_set()" and not g.nodes[i].polarity]
     ck.require(bool(flag), "C10.1", "%s: start dominated by the stop-flag test" % q.fn(fst), "not stopped",
                "a thread can be started while the pool is stopped", q.loc(fst, sn))
+    # ... and by nothing else: whenever the pool runs and is below its maximum, a request for a worker is honoured
+    others = []
+    for i in d[sn.id]:
+        b_ = g.nodes[i]
+        if b_.kind != "branch":
+            continue
+        nc_ = norm_cmp(b_.test, b_.polarity)
+        if nc_ == ("self.__nb_threads", "<", "self._max_threads") or (dump(b_.test) == "self._done_event.is_set()" and not b_.polarity):
+            continue
+        others.append("%s%s" % ("" if b_.polarity else "not ", dump(b_.test)))
+    ck.require(not others, "C10.1", "%s: nothing but the bound and the stop flag can refuse a worker" % q.fn(fst), "two guards only",
+               "thread creation is additionally guarded by %s: with fewer than max_threads workers and the pool running, a task that needs a "
+               "worker can be refused one (it then waits for a running task to finish, or for ever)" % others, q.loc(fst, sn))
     incs = [n for n in g.live_nodes() if n.kind == "stmt" and isinstance(n.ast, ast.AugAssign) and dump(n.ast.target) == "self.__nb_threads"
             and isinstance(n.ast.op, ast.Add)]
     decs = [n for n in g.live_nodes() if n.kind == "stmt" and isinstance(n.ast, ast.AugAssign) and dump(n.ast.target) == "self.__nb_threads"
@@ -178,7 +191,8 @@ def check(ck):
     d = dominators(g)
     stc = [n for n in g.live_nodes() for c in node_calls(n) if dump(c.func) == "self.__start_thread"]
     puts = [n for n in g.live_nodes() for c in node_calls(n) if dump(c.func) == "self._queue.put"]
-    incp = [n for n in g.live_nodes() if n.kind == "stmt" and isinstance(n.ast, ast.AugAssign) and dump(n.ast.target) == "self.__nb_pending_task"]
+    incp = [n for n in g.live_nodes() if n.kind == "stmt" and isinstance(n.ast, ast.AugAssign) and dump(n.ast.target) == "self.__nb_pending_task"
+            and isinstance(n.ast.op, ast.Add)]        # (a compensating `-= 1` on a failure path is examined by C10.7b)
     if len(stc) != 1 or len(puts) != 1 or len(incp) != 1:
         raise AnalysisError("anchor vanished: put / pending increment / __start_thread in enqueue")
     guards = [(g.nodes[i], norm_cmp(g.nodes[i].test, g.nodes[i].polarity)) for i in d[stc[0].id] if g.nodes[i].kind == "branch"]
@@ -191,7 +205,13 @@ def check(ck):
         ck.require("__lock" in cl.held(fenq, b) and "__lock" in cl.held(fenq, stc[0]), "C10.3", "%s: growth decision under the lock" % q.fn(fenq),
                    "inside `with self.__lock`", "the growth decision is taken outside the pool lock", q.loc(fenq, b))
         ck.require(incp[0].id in d[b.id] and puts[0].id in d[incp[0].id], "C10.3", "%s: put -> pending += 1 -> growth test" % q.fn(fenq),
-                   "ordered by dominance", "the growth test does not follow the put and the pending increment", q.loc(fenq, b))
+                   "ordered by dominance", "the growth test does not follow the put and the pending increment: the task is counted (and the "
+                   "decision whether a worker is needed taken) before it is in the queue, so a worker that evaluates its retirement in "
+                   "between sees an empty queue and leaves - the task then waits for a worker nobody starts", q.loc(fenq, b))
+        same_cs = bool(puts[0].withs) and puts[0].withs == incp[0].withs == b.withs
+        ck.require(same_cs, "C10.3", "%s: put, count and growth decision in one critical section" % q.fn(fenq), "same `with self.__lock`",
+                   "the put, the pending increment and the growth decision are not made in one critical section of the pool lock: a worker's "
+                   "retirement test (queue size against idle workers, under that lock) can run between them", q.loc(fenq, puts[0]))
     ck.require(all(nc is None or nc in GROW for (_b, nc) in guards), "C10.3",
                "%s: no other comparison guards the growth" % q.fn(fenq), "single guard", "additional guards restrict the growth: %s" % [nc for (_b, nc) in guards],
                q.loc(fenq, stc[0]))
